@@ -3,6 +3,7 @@ from lib.facts import norm, direct_place, const_int, origins, place_fields, noph
 from lib import tables
 from .C15 import const_str, str_consts
 
+INLINE = True      # crate-local helpers the rules do not know by name are inlined into their callers (lib/inline.py)
 EXPLANATION = (
     "R13.1 polarity constants: FilterSet::include/exclude pass true/false to SplitVec::insert(after_split); the CLI sends "
     "the positional `filter` values to include and `--skip` values to exclude; Divan::skip_regex/skip_exact exclude; "
